@@ -1,10 +1,10 @@
 package main
 
 import (
-	"unicode/utf8"
 	"fmt"
 	"go/token"
 	"go/types"
+	"unicode/utf8"
 	"unsafe"
 
 	"golang.org/x/tools/go/ssa"
